@@ -99,8 +99,8 @@ func (u *unionOneAndNullCodec) Omit(p unsafe.Pointer) bool {
 
 func (u *unionOneAndNullCodec) Write(w *WriteBuf, p unsafe.Pointer) {
 	if u.codec.Omit(p) {
-		// TODO: this assumes the null type is always first.
-		w.Varint(0)
+		// the null branch is whichever of the two is not the non-null one
+		w.Varint(int64(1 - u.nonNull))
 		return
 	}
 	w.Varint(int64(u.nonNull))
@@ -156,10 +156,10 @@ func (u *unionNullString) Omit(p unsafe.Pointer) bool {
 
 func (u *unionNullString) Write(w *WriteBuf, p unsafe.Pointer) {
 	if u.codec.Omit(p) {
-		w.Varint(0)
+		w.Varint(int64(1 - u.nonNull))
 		return
 	}
 
-	w.Varint(1)
+	w.Varint(int64(u.nonNull))
 	u.codec.Write(w, p)
 }
